@@ -49,7 +49,8 @@ def plan(tier, prop):
                 "returned or raised its documented error; distinct = distinct "
                 "abstract event traces (sequence of tx/retx/rx/drop/dup/"
                 "delay/callback/raise kinds, no times or payloads)",
-        "expected_probes": ["retransmission", "timeout_error",
+        "expected_probes": ["nested_call", "payload_buffer_reused",
+                            "retransmission", "timeout_error",
                             "fatal_error", "dup_reply_ignored",
                             "late_reply_in_later_burst",
                             "retryable_discarded", "window_full",
